@@ -1,2 +1,48 @@
-From Cmr Require Import Base Det TuModel.
-Theorem placeholder_C02 : True. Proof. exact I. Qed.
+(* Properties_C02.v — C02: the regularity verdict of 0/1 matrices equals signability to a TU matrix. *)
+From Coq Require Import ZArith List.
+From mathcomp Require Import all_ssreflect all_algebra.
+From mathcomp Require Import ssrZ.
+From Cmr Require Import Base Det TuModel TuProofs TuJudgeProofs RegularProofs.
+Import mathcomp.ssreflect.seq.
+
+(* M is regular: its nonzeros can be replaced by +1/-1 (zeros stay) such that the result is totally unimodular
+   in the sense of the determinant definition *)
+Definition Regular01 (m n : nat) (M : mat) : Prop :=
+  is_binary M = true /\ exists S, signing_of M S /\ TUmx (mx_of m n S).
+
+Lemma regular_bf_is_definition m n (M : mat) : wf_mat m n M = true ->
+  (regular_bf m n M = true <-> Regular01 m n M).
+Proof.
+move=> Hwf; rewrite (regular_bf_spec _ _ _ Hwf); split.
+- by move=> [Hb [S [HS Ht]]]; split=> //; exists S; split=> //; apply/tu_bfP.
+- by move=> [Hb [S [HS /tu_bfP Ht]]]; split=> //; exists S.
+Qed.
+
+(* the oracle the library's verdict is compared with is the definition, for every 0/1 matrix of every shape *)
+Theorem C02_oracle_is_definition : forall m n (M : mat), wf_mat m n M = true ->
+  (regular_bf m n M = true <-> Regular01 m n M).
+Proof. exact regular_bf_is_definition. Qed.
+Print Assumptions C02_oracle_is_definition.
+
+(* a signing keeps shape and support *)
+Theorem C02_signing_keeps_support : forall (M S : mat), signing_of M S ->
+  forall i j, (get S i j = Z0 <-> get M i j = Z0).
+Proof. exact signing_of_support. Qed.
+Print Assumptions C02_signing_keeps_support.
+
+(* whenever the judge accepts a record of CMRregularTest (any parameter combination): CMR_OKAY, a reported
+   verdict equals the oracle (a matrix with an entry outside {0,1} is "not regular" because regular_bf requires
+   is_binary), and the verdict may be left unwritten only under a (co)graphicness stop flag *)
+Theorem C02_accepted_verdict : forall rec cfg m n (M : mat) rc v rest,
+  regular_input rec = Some ((cfg, (m, n, M), rc, v), rest) ->
+  judge_regular rec = Z0 ->
+  rc = Z0 /\ (v = Z0 \/ v = Zpos xH \/ (v = Zpos (xO xH) /\ cfg_stopflags cfg = true)) /\
+  (v = Zpos xH -> regular_bf m n M = true) /\ (v = Z0 -> regular_bf m n M = false).
+Proof. exact judge_regular_sound. Qed.
+Print Assumptions C02_accepted_verdict.
+
+(* the row-by-row search prunes with a hereditary test: TU of a matrix implies TU of every row prefix *)
+Theorem C02_tu_prefix : forall m n (S : mat) k, (k <= m)%coq_nat -> length S = m ->
+  tu_bf m n S = true -> tu_bf k n (firstn k S) = true.
+Proof. exact tu_bf_prefix. Qed.
+Print Assumptions C02_tu_prefix.
